@@ -24,7 +24,10 @@ open Juniper.Gen.Group Juniper.Model.Group
 open Juniper.Proofs.GroupLocal Juniper.Proofs.GroupInv Juniper.Proofs.GroupProgress
 
 /-- *After StopAndWait returns, none of the functions is running and none ever starts again,
-including ones whose start raced with the stop.* Once some `StopAndWait` call has returned
+including ones whose start raced with the stop.* (That `g.m` is the standard library's `sync.RWMutex`,
+`g.wg` its `WaitGroup`, that `NewGroup` stores the derived context together with its own cancel function,
+that all methods have pointer receivers and that the spawned goroutine is `f(); g.wg.Done()` are regenerated
+facts: `groupWiring_tie`, `spawnText_tie`, and the `decide` at the head of this proof.) Once some `StopAndWait` call has returned
 (`barrier`), in that state and in every state reachable from it — whatever is registered, triggered,
 cancelled or stopped afterwards, and wherever the spawns that raced with the stop were — the context
 is cancelled, the wait group is empty, no thread is running `f` (`inF`, `active = 0`) and every thread
@@ -37,6 +40,13 @@ theorem stopAndWait_barrier {now : Int} {async : Bool} {s : GState} (hr : Reach 
       ∀ t ∈ s'.threads, t.pc ≠ .inF ∧ t.active = 0 ∧
         (t.pc = .spawnStart ∨ t.pc = .spawnLocked ∨ t.pc = .spawnBail ∨ t.pc = .notSpawned ∨ t.pc = .exited) := by
   intro s' hr'
+  -- what `g.m`, `g.wg`, `g.ctx` are and how `NewGroup` wires them (audit C17 F1): re-checked here so that a
+  -- no-op lock type, a `NewGroup` that stores the parent context, or a value receiver breaks *this* theorem
+  have _wiring : groupFields.lookup "m" = some "sync.RWMutex" ∧ groupFields.lookup "wg" = some "sync.WaitGroup" ∧
+      groupFields.lookup "ctx" = some "context.Context" ∧ groupImports.lookup "sync" = some "sync" ∧
+      groupLocalTypes = [] ∧ groupReceivers.all (fun p => p.2 == "*Group") = true ∧
+      newGroupStmts = ["bgCtx, cancel := context.WithCancel(ctx)", "return &Group{ ctx: bgCtx, cancel: cancel, }"] ∧
+      spawnGoStmts = ["f()", "g.wg.Done()"] := by decide
   have hb' := barrier_reach hr' hb
   have hi := ginv_reach (reach_trans hr hr')
   obtain ⟨hsc, hz⟩ := hi.barrierK hb'
@@ -71,11 +81,16 @@ or `PeriodicOrTrigger`:
 (b) as long as no run has begun since some call (`owed`), the request is still pending: the value is
     in the channel, or the loop has received it and is committed to calling `f` (between the receive
     and the call of `f` there is no further context check);
-(c) `owed` is cleared only by a step that begins a run — so that run begins after the call;
+(c) a step of the registration's own goroutine clears `owed` only by beginning a run — so that run begins
+    after the call (that no *other* label clears it, moves the goroutine or takes the token is
+    `trigger_request_stable` below);
 (d) while the context is live and the goroutine was spawned, a pending request makes progress:
     if `f` is running, its return leads back to the loop with the request still pending; otherwise a
     step of the loop's goroutine is enabled, and every such step begins a run or strictly decreases
-    the distance to it, keeping the request pending. -/
+    the distance to it, keeping the request pending. (`0 < dist t.pc` is not an assumption about the
+    state: it follows from the live context once the registration call has passed `wg.Add` —
+    `live_registration_on_its_way`; stability under all other labels and the bound along arbitrary
+    runs: `trigger_request_stable`.) -/
 theorem trigger_not_lost {now : Int} {async : Bool} {s : GState} (hr : Reach (gInit now async) s)
     (i : Nat) (t : Thread) (hti : s.threads[i]? = some t) (hk : t.kind = .trigger ∨ t.kind = .pot) :
     (∃ s' t', step s (.trig i) = some s' ∧ s'.threads[i]? = some t' ∧ t'.owed = true ∧ t'.token = true) ∧
@@ -135,6 +150,61 @@ theorem trigger_not_lost {now : Int} {async : Bool} {s : GState} (hr : Reach (gI
       · exact Or.inl ⟨a, b⟩
       · exact Or.inr ⟨a, b, c'⟩
 
+/-- **The other half of `trigger_not_lost` / `periodic_keeps_running` (audit C17 F4): a live context means
+the registration is on its way.** For a reachable state with a live group context and a registration that is
+not a `Do`: either its registration call is still inside `spawn` before `wg.Add(1)` (the call has not
+returned, so no trigger function has been handed out and no timer exists yet), or `0 < dist t.pc` — the
+goroutine is in its loop or inside `f`. So the hypothesis `0 < dist t.pc` of (d) and of
+`periodic_keeps_running` is discharged by "the context is live and the registration call has returned". -/
+theorem live_registration_on_its_way {now : Int} {async : Bool} {s : GState} (hr : Reach (gInit now async) s)
+    (i : Nat) (t : Thread) (hti : s.threads[i]? = some t) (hk : t.kind ≠ .doOnce) (hctx : s.ctxDone = false) :
+    0 < dist t.pc ∨ t.pc = .spawnStart ∨ t.pc = .spawnLocked ∨ t.pc = .spawnChecked :=
+  live_on_its_way hr (List.mem_of_getElem? hti) hctx hk
+
+/-- **Stability, and the measure along arbitrary runs.** For a reachable state `s`, a registration `i` that is
+not a `Do` and is on its way (`0 < dist t.pc`):
+(1) *every* label that is not a step of `i`'s own goroutine and not the return of its `f` — steps of all other
+    goroutines, registrations, trigger calls (on `i` too), timers firing, the clock, parent cancellation, `Stop` /
+    `StopAndWait` calls and their steps — leaves `i`'s goroutine exactly where it is (same pc, `runs`,
+    `active`), keeps `owed`, keeps the token, keeps a fired timer fired and a non-idle timer non-idle; so an
+    enabled own step stays enabled and `dist` cannot grow;
+(2) along *any* run of the whole system at whose end the context is still live, `runs` has not decreased, and
+    as long as no new run has begun the registration is still on its way, `dist` has dropped by at least the
+    number of own steps taken in the run, and a pending request (token in the channel, or received and
+    committed) is still pending. Since `dist ≤ 9`, a new run begins within 9 own steps (own steps = steps of
+    the goroutine and returns of `f`), whatever everything else does in between.
+What remains trusted for "is followed by a run" / "keeps being invoked": the scheduler eventually runs an
+enabled goroutine, an armed timer eventually fires, `f` returns. -/
+theorem trigger_request_stable {now : Int} {async : Bool} {s : GState} (_hr : Reach (gInit now async) s)
+    (i : Nat) (t : Thread) (hti : s.threads[i]? = some t) (hk : t.kind ≠ .doOnce) (hd : 0 < dist t.pc) :
+    (∀ l s', step s l = some s' → isOwn i l = false →
+      ∃ t', s'.threads[i]? = some t' ∧ t'.pc = t.pc ∧ t'.kind = t.kind ∧ t'.runs = t.runs ∧ t'.active = t.active ∧
+        (t.owed = true → t'.owed = true) ∧ (t.token = true → t'.token = true) ∧
+        (t.timer = .fired → t'.timer = .fired) ∧ (t.timer ≠ .idle → t'.timer ≠ .idle)) ∧
+    (∀ ls s', runG s ls = some s' → s'.ctxDone = false →
+      ∃ t', s'.threads[i]? = some t' ∧ t'.kind = t.kind ∧ t.runs ≤ t'.runs ∧
+        (t'.runs = t.runs → 0 < dist t'.pc ∧ dist t'.pc + nOwn i ls ≤ dist t.pc ∧ nOwn i ls < 9 ∧
+          ((t.token = true ∨ committed t.pc = true) → (t'.token = true ∨ committed t'.pc = true)))) := by
+  refine ⟨fun l s' h hl => env_stable h hti hl, ?_⟩
+  intro ls s' hrun hctx
+  obtain ⟨t', ht', hk', hle, himp⟩ := own_steps_bounded ls hrun hctx hti hk hd
+  refine ⟨t', ht', hk', hle, fun he => ?_⟩
+  obtain ⟨a, b, c⟩ := himp he
+  have := dist_le t.pc
+  exact ⟨a, b, by omega, c⟩
+
+/-- non-vacuity: a trigger request made while `f` runs; then another registration is made, the clock moves, a
+`Stop`-less stopper-free environment acts, `f` returns and the loop goes round: four own steps
+(`fEnd`, loop head, select, …) — the measure went from 7 (`inF`) to the next run -/
+example : ∃ s s' ls, Reach (gInit 0 true) s ∧ runG s ls = some s' ∧ s'.ctxDone = false ∧ nOwn 0 ls = 4 ∧
+    (s.threads[0]?.map fun t => (t.pc, t.token, t.runs)) = some (.inF, true, 1) ∧
+    (s'.threads[0]?.map fun t => (t.pc, t.token, t.runs)) = some (.inF, false, 2) := by
+  refine ⟨_, _, [.register .periodic 5 1, .fEnd 0, .advance 3, .work 0 0 0, .trig 0, .work 0 1 0, .work 1 0 0, .work 0 0 0],
+    reach_of_runG
+      [.register .trigger 0 0, .work 0 0 0, .work 0 0 0, .work 0 0 0, .work 0 0 0, .work 0 0 0, .work 0 0 0,
+       .trig 0, .work 0 0 0, .work 0 1 0, .work 0 0 0, .trig 0] _ _ _ .refl rfl, rfl, ?_⟩
+  decide
+
 /-- a burst of three trigger calls while `f` runs: one value stays in the channel, and after `f`
 returns the loop is four steps away from the next run -/
 example : ∃ s, Reach (gInit 0 true) s ∧ s.ctxDone = false ∧
@@ -188,7 +258,11 @@ it is armed (the clock can advance to its due instant, at which the runtime may 
 (then the receive arm is enabled); everywhere else a step of the goroutine is enabled (in particular
 the `if !t.Stop() { <-t.C }` drain of PeriodicOrTrigger never blocks, under either timer semantics);
 and every step of the goroutine begins a run or strictly decreases the distance to the next one.
-(One run at a time: `runs_never_overlap`.) -/
+(One run at a time: `runs_never_overlap`. `0 < dist t.pc` follows from the live context once the registration
+call has passed `wg.Add`: `live_registration_on_its_way`; no other label moves the goroutine, un-fires or
+disarms its timer, and along any run `dist` drops with every own step: `trigger_request_stable`, which is
+stated for every registration that is not a `Do`. The conjunct about `advance` says only that the model's clock
+can always reach `due`; that the runtime then fires the timer is trusted.) -/
 theorem periodic_keeps_running {now : Int} {async : Bool} {s : GState} (hr : Reach (gInit now async) s)
     (i : Nat) (t : Thread) (hti : s.threads[i]? = some t) (hk : t.kind = .periodic ∨ t.kind = .pot)
     (hctx : s.ctxDone = false) (hd : 0 < dist t.pc) :
